@@ -19,11 +19,15 @@ import (
 	"sort"
 	"strconv"
 	"strings"
+	"sync"
+	"time"
 
 	"github.com/MixinNetwork/mixin/common"
 	"github.com/MixinNetwork/mixin/config"
 	"github.com/MixinNetwork/mixin/crypto"
+	"github.com/MixinNetwork/mixin/kernel"
 	"github.com/MixinNetwork/mixin/storage"
+	"github.com/dgraph-io/ristretto/v2"
 )
 
 const (
@@ -59,6 +63,17 @@ type c15LedgerCase struct {
 	// C17 history accounting, maintained from successful snapshots only
 	expected map[int]*big.Int
 	finalTx  map[int]bool
+	// a transaction that never passed the real validation was finalized: the C17 equations are only
+	// claimed for validated histories, so the supply oracle is off for the rest of the case
+	tainted bool
+
+	node *kernel.Node
+	// snapshots the node's own validateSnapshotTransaction accepted (by hash)
+	kvalid map[crypto.Hash]bool
+	// validation-time facts of a deposit the real Validate accepted: the stored total then, and whether
+	// the asset had info then (what the known C16 findings are made of)
+	valTotal map[int]*big.Int
+	valSeen  map[int]bool
 }
 
 func c15Seed64(tag string, n int) []byte {
@@ -128,7 +143,8 @@ func c15NewLedgerCase(root string) *c15LedgerCase {
 		snapID: map[crypto.Hash]int{}, depID: map[crypto.Hash]int{}, assetID: map[crypto.Hash]int{},
 		assetOf: map[int]crypto.Hash{}, chainID: map[crypto.Hash]int{}, akeyID: map[string]int{},
 		opaqueID: map[string]int{}, validated: map[int]bool{}, locked: map[int]bool{}, pending: map[int]bool{},
-		expected: map[int]*big.Int{}, finalTx: map[int]bool{}}
+		expected: map[int]*big.Int{}, finalTx: map[int]bool{},
+		kvalid: map[crypto.Hash]bool{}, valTotal: map[int]*big.Int{}, valSeen: map[int]bool{}}
 	c.custodian = common.NewAddressFromSeed(c15Seed64("custodian", 0))
 	type gnode struct {
 		Signer    string `json:"signer"`
@@ -155,7 +171,16 @@ func c15NewLedgerCase(root string) *c15LedgerCase {
 		panic("harness: genesis: " + err.Error())
 	}
 	c.epoch = gns.EpochTimestamp()
-	store, err := storage.NewBadgerStore(&config.Custom{}, dir)
+	nodeKey := crypto.NewKeyFromSeed(c15Seed64("thisnode", 0))
+	cfg := fmt.Sprintf("[node]\nsigner-key = \"%s\"\nconsensus-only = true\nmemory-cache-size = 16\ncache-ttl = 7200\n[network]\nlistener = \"127.0.0.1:7239\"\n", nodeKey.String())
+	if err := os.WriteFile(dir+"/config.toml", []byte(cfg), 0o644); err != nil {
+		panic(err)
+	}
+	custom, err := config.Initialize(dir + "/config.toml")
+	if err != nil {
+		panic(err)
+	}
+	store, err := storage.NewBadgerStore(custom, dir)
 	if err != nil {
 		panic(err)
 	}
@@ -166,6 +191,17 @@ func c15NewLedgerCase(root string) *c15LedgerCase {
 	}
 	if err := store.LoadGenesis(rounds, snaps, txs); err != nil {
 		panic("harness: LoadGenesis: " + err.Error())
+	}
+	// a kernel node over the same store (no loops): its validateSnapshotTransaction / TopoWrite are driven
+	// through kernel/verif_hooks_c16.go
+	kernel.VerifMockRunAggregators(true)
+	cache, err := ristretto.NewCache(&ristretto.Config[[]byte, any]{NumCounters: 1e4, MaxCost: 1 << 22, BufferItems: 64})
+	if err != nil {
+		panic(err)
+	}
+	c.node, err = kernel.SetupNode(custom, store, cache, gns)
+	if err != nil {
+		panic("harness: SetupNode: " + err.Error())
 	}
 	net := gns.NetworkId()
 	for _, n := range gns.Nodes {
@@ -186,6 +222,10 @@ func c15NewLedgerCase(root string) *c15LedgerCase {
 }
 
 func (c *c15LedgerCase) close() {
+	if c.node != nil {
+		c.node.VerifStop()
+		c.node = nil
+	}
 	if c.store != nil {
 		_ = c.store.Close()
 		c.store = nil
@@ -258,7 +298,7 @@ func (c *c15LedgerCase) buildTx(f []string) {
 		p := strings.Split(o, ":")
 		amount := integerFromBig(parseBig(p[1]))
 		switch p[0] {
-		case "s", "z":
+		case "s", "z", "x":
 			kid := c15Atoi(p[2])
 			seed, acct, idx := kid/10000, (kid/100)%100, kid%100
 			if idx != i {
@@ -267,6 +307,9 @@ func (c *c15LedgerCase) buildTx(f []string) {
 			typ := uint8(common.OutputTypeScript)
 			if p[0] == "z" {
 				typ = 0x77
+			}
+			if p[0] == "x" {
+				typ = common.OutputTypeCustodianSlashNodes
 			}
 			tx.AddOutputWithType(typ, []*common.Address{c.account(acct)}, common.NewThresholdScript(1), amount, c15Seed64("seed", seed))
 			c.keyID[*tx.Outputs[i].Keys[0]] = kid
@@ -659,6 +702,9 @@ func c15ExecLedger(prop string) func(st *State, line string) Result {
 			res.Out = out
 			res.Tags = append(res.Tags, "validate:"+out+":"+c15TxKind(tx))
 			c.validated[id] = out == "ok"
+			if out == "ok" {
+				c.recordValidation(id)
+			}
 			if out != "ok" {
 				c.locked[id], c.pending[id] = false, false
 			}
@@ -689,6 +735,58 @@ func c15ExecLedger(prop string) func(st *State, line string) Result {
 			c.pending[id] = c.locked[id] && out == "ok"
 		case "snap":
 			c.execSnap(f, prop, &res)
+		case "kvalidate":
+			c.execKValidate(f, &res)
+		case "ksnap":
+			b := c.buildSnap(f)
+			if !c.kvalid[b.snap.Hash] {
+				res.Out, res.LeanIn = "skip", "nop"
+				break
+			}
+			res.LeanIn = strings.Join(f, " ")
+			c.finalize(b, prop, &res, true)
+		case "csnap":
+			c.execConcurrent(f, prop, &res)
+		case "nop":
+			res.Out = "skip"
+		case "persist", "persistv":
+			// lock the inputs and persist the body; `persistv` does it only for a transaction the real
+			// Validate accepted (what the kernel does), and tells the model which of the two happened
+			id := c15Atoi(f[1])
+			tx := c.txByID[id]
+			if f[0] == "persistv" && !c.validated[id] {
+				res.Out, res.LeanIn = "skip", "nop"
+				break
+			}
+			out, _, _ := Catch(func() string {
+				if err := tx.LockInputs(c.store, f[2] == "1"); err != nil {
+					return "reject"
+				}
+				c.locked[id] = c.validated[id]
+				if err := c.store.WriteTransaction(tx); err != nil {
+					return "reject"
+				}
+				return "ok"
+			})
+			res.Out, res.LeanIn = out, "persist "+f[1]+" "+f[2]
+			res.Tags = append(res.Tags, "persist:"+out)
+			c.pending[id] = c.locked[id] && out == "ok"
+		case "snapv":
+			// finalize only what the node's own validation accepted: every member is either finalized
+			// already or validated + locked + persisted on the real code
+			ok := true
+			for _, sid := range c15Split(f[7], ",") {
+				id := c15Atoi(sid)
+				if !c.finalTx[id] && !c.pending[id] {
+					ok = false
+				}
+			}
+			if !ok {
+				res.Out, res.LeanIn = "skip", "nop"
+				break
+			}
+			f[0] = "snap"
+			c.execSnap(f, prop, &res)
 		case "dump":
 			res.Out = c.dump(c.raw())
 		case "supply":
@@ -701,7 +799,7 @@ func c15ExecLedger(prop string) func(st *State, line string) Result {
 			if len(parts) > 0 {
 				res.Out = strings.Join(parts, " ")
 			}
-			if prop == "C17" {
+			if prop == "C17" && !c.tainted {
 				c.checkSupply(sup, &res)
 			}
 			res.Nontrivial = true
@@ -733,6 +831,27 @@ func c15TxKind(tx *common.VersionedTransaction) string {
 }
 
 func (c *c15LedgerCase) checkSupply(sup map[int]c15Supply, res *Result) {
+	// no output is consumed by two finalized transactions
+	spentBy := map[string]int{}
+	var fin []int
+	for id := range c.finalTx {
+		fin = append(fin, id)
+	}
+	sort.Ints(fin)
+	for _, id := range fin {
+		for _, in := range c.txByID[id].Inputs {
+			if in.Deposit != nil || in.Mint != nil || len(in.Genesis) > 0 {
+				continue
+			}
+			k := fmt.Sprintf("%s:%d", c.txSym(in.Hash), in.Index)
+			if other, ok := spentBy[k]; ok && other != id {
+				res.PropKey = "C17:output-consumed-twice"
+				res.PropDesc = fmt.Sprintf("output %s is an input of the two finalized transactions %d and %d", k, other, id)
+				return
+			}
+			spentBy[k] = id
+		}
+	}
 	for _, a := range c.assets {
 		s := sup[a]
 		switch {
@@ -752,7 +871,16 @@ func (c *c15LedgerCase) checkSupply(sup map[int]c15Supply, res *Result) {
 	}
 }
 
-func (c *c15LedgerCase) execSnap(f []string, prop string, res *Result) {
+type c15Snap struct {
+	sid, topo int
+	nodeID    crypto.Hash
+	snap      *common.Snapshot
+	txs       []int // members in the order the real code finalizes them (hash order)
+	signers   []crypto.Hash
+}
+
+// build the real snapshot of a `snap`-shaped line (fields 1..7) and rewrite field 7 to the real order
+func (c *c15LedgerCase) buildSnap(f []string) *c15Snap {
 	sid, node, round, ts, topo, sg := c15Atoi(f[1]), c15Atoi(f[2]), c15Atoi(f[3]), c15Atoi(f[4]), c15Atoi(f[5]), c15Atoi(f[6])
 	ids := c15Split(f[7], ",")
 	nodeID := c.nodes[node-1]
@@ -761,35 +889,49 @@ func (c *c15LedgerCase) execSnap(f []string, prop string, res *Result) {
 	if r, err := c.store.ReadRound(nodeID); err == nil && r != nil && round > 0 {
 		snap.References = r.References
 	}
-	var txs []int
 	for _, s := range ids {
-		id := c15Atoi(s)
-		tx := c.txByID[id]
+		tx := c.txByID[c15Atoi(s)]
 		if tx == nil {
 			panic("harness: snapshot refers to an undeclared transaction")
 		}
 		snap.AddTransaction(tx.PayloadHash())
-		txs = append(txs, id)
 	}
 	snap.Hash = snap.PayloadHash()
 	// EncodeSnapshotPayload sorts snap.Transactions in place by hash: that is the order in which
 	// writeSnapshot finalizes the members. The model is told the real order (an oracle input).
-	txs = txs[:0]
+	var txs []int
 	var sorted []string
 	for _, h := range snap.Transactions {
 		txs = append(txs, c.txID[h])
 		sorted = append(sorted, strconv.Itoa(c.txID[h]))
 	}
 	f[7] = strings.Join(sorted, ",")
-	res.LeanIn = strings.Join(f, " ")
 	if old, ok := c.snapID[snap.Hash]; ok && old != sid {
 		panic("harness: two snapshot symbols for one hash")
 	}
 	c.snapID[snap.Hash] = sid
+	if sg > len(c.nodes) {
+		sg = len(c.nodes)
+	}
 	var signers []crypto.Hash
-	for i := 0; i < sg && i < len(c.nodes); i++ {
+	for i := 0; i < sg; i++ {
 		signers = append(signers, c.nodes[i])
 	}
+	if sg > 0 {
+		snap.Signature = &crypto.CosiSignature{Mask: uint64(1)<<uint(sg) - 1}
+	}
+	return &c15Snap{sid: sid, topo: topo, nodeID: nodeID, snap: snap, txs: txs, signers: signers}
+}
+
+func (c *c15LedgerCase) execSnap(f []string, prop string, res *Result) {
+	b := c.buildSnap(f)
+	res.LeanIn = strings.Join(f, " ")
+	c.finalize(b, prop, res, false)
+}
+
+// write a snapshot (directly, or through the node's TopoWrite) and evaluate the three property oracles
+func (c *c15LedgerCase) finalize(b *c15Snap, prop string, res *Result, viaNode bool) {
+	snap, txs, nodeID, topo, signers := b.snap, b.txs, b.nodeID, b.topo, b.signers
 	before := c.raw()
 	// premise of C16, evaluated on the state before the write
 	premise := true
@@ -800,7 +942,7 @@ func (c *c15LedgerCase) execSnap(f []string, prop string, res *Result) {
 		if _, fin := before.get(append([]byte("FINALIZATION"), c.hashOf(id)...)); fin {
 			continue
 		}
-		premise = premise && c.pending[id]
+		premise = premise && (c.pending[id] || c.kvalid[snap.Hash])
 	}
 	if _, ok := before.get(binary.BigEndian.AppendUint64([]byte("TOPOLOGY"), uint64(topo))); ok {
 		premise = false
@@ -809,12 +951,19 @@ func (c *c15LedgerCase) execSnap(f []string, prop string, res *Result) {
 		premise = false
 	}
 	out, panicked, msg := Catch(func() string {
+		if viaNode {
+			c.node.VerifC16TopoWriteAt(snap, signers, uint64(topo))
+			return "ok"
+		}
 		if err := c.store.WriteSnapshot(&common.SnapshotWithTopologicalOrder{Snapshot: snap, TopologicalOrder: uint64(topo)}, signers); err != nil {
 			return "err"
 		}
 		return "ok"
 	})
 	_ = panicked
+	if viaNode && out != "ok" {
+		out = "crash" // TopoWrite panics on an error as well
+	}
 	after := c.raw()
 	res.Out = out
 	res.Tags = append(res.Tags, "snap:"+out, fmt.Sprintf("snap-size:%d", len(txs)))
@@ -835,6 +984,26 @@ func (c *c15LedgerCase) execSnap(f []string, prop string, res *Result) {
 			now, is := after.get(fk)
 			if !is && prop == "C15" {
 				res.PropKey, res.PropDesc = "C15:missing-effect", fmt.Sprintf("snapshot written but transaction %d has no finalization record", id)
+			}
+			if !was && prop == "C15" {
+				// all effects: every materialised output of a newly finalized member exists, unlocked, with
+				// its ghost keys bound to the member
+				tx := c.txByID[id]
+				for _, u := range tx.UnspentOutputs() {
+					buf := make([]byte, binary.MaxVarintLen64)
+					n := binary.PutVarint(buf, int64(u.Index))
+					uk := append(append([]byte("UTXO"), h...), buf[:n]...)
+					if _, ok := after.get(uk); !ok {
+						res.PropKey = "C15:missing-output"
+						res.PropDesc = fmt.Sprintf("snapshot written, transaction %d finalized, but its output %d is not in the UTXO family", id, u.Index)
+					}
+					for _, k := range u.Keys {
+						if v, ok := after.get(append([]byte("GHOST"), k[:]...)); !ok || !bytes.Equal(v, h) {
+							res.PropKey = "C15:missing-output"
+							res.PropDesc = fmt.Sprintf("snapshot written, transaction %d finalized, but a ghost key of output %d is not bound to it", id, u.Index)
+						}
+					}
+				}
 			}
 			if was {
 				shared++
@@ -879,6 +1048,9 @@ func (c *c15LedgerCase) execSnap(f []string, prop string, res *Result) {
 				continue
 			}
 			c.finalTx[id] = true
+			if !c.pending[id] {
+				c.tainted = true
+			}
 			tx := c.txByID[id]
 			a := c.assetID[tx.Asset]
 			if c.expected[a] == nil {
@@ -935,6 +1107,13 @@ func (c *c15LedgerCase) classifyC16(txs []int, before *c15RawDB, out, msg string
 			per[a] = &agg{sum: new(big.Int), infos: map[string]bool{}}
 		}
 		if d := tx.Inputs[0].Deposit; d != nil {
+			// the known findings are about deposits that verifyDepositData really accepted: on the state it
+			// was validated on the asset was unseen, or stored total + amount was below the capacity.
+			// A deposit finalized without such a validation on record is not one of them.
+			vt, ok := c.valTotal[id]
+			if !ok || (c.valSeen[id] && new(big.Int).Add(vt, integerToBig(d.Amount)).Cmp(c15Cap(a)) >= 0) {
+				return "C16:validated-batch-failed", fmt.Sprintf("the node accepted deposit %d although its own deposit check refuses it on the state it was presented on; WriteSnapshot -> %s %s", id, out, msg)
+			}
 			per[a].sum.Add(per[a].sum, integerToBig(d.Amount))
 			per[a].infos[d.Chain.String()+"/"+d.AssetKey] = true
 		} else {
@@ -968,4 +1147,236 @@ func (c *c15LedgerCase) classifyC16(txs []int, before *c15RawDB, out, msg string
 		}
 	}
 	return "C16:validated-batch-failed", fmt.Sprintf("every member validated, locked and persisted, WriteSnapshot -> %s %s", out, msg)
+}
+
+// what the known C16 findings are made of: the stored total and the presence of asset info at the
+// moment the real Validate accepted a deposit
+func (c *c15LedgerCase) recordValidation(id int) {
+	tx := c.txByID[id]
+	if tx.TransactionType() != common.TransactionTypeDeposit {
+		return
+	}
+	info, bal, err := c.store.ReadAssetWithBalance(tx.Asset)
+	if err != nil {
+		panic(err)
+	}
+	c.valTotal[id] = integerToBig(bal)
+	c.valSeen[id] = info != nil
+}
+
+// the node's own validateSnapshotTransaction on a snapshot whose members are in the cache store
+func (c *c15LedgerCase) execKValidate(f []string, res *Result) {
+	finalized := f[8] == "1"
+	b := c.buildSnap(f)
+	res.LeanIn = strings.Join(f, " ")
+	before := c.raw()
+	stored := map[int]bool{}
+	for _, id := range b.txs {
+		if err := c.store.CacheStoreTransaction(c.txByID[id]); err != nil {
+			panic(err)
+		}
+		_, stored[id] = before.get(append([]byte("TRANSACTION"), c.hashOf(id)...))
+	}
+	out, _, _ := Catch(func() string {
+		found, missing, err := c.node.VerifC16ValidateSnapshotTransaction(b.snap, finalized)
+		if err != nil {
+			return "reject"
+		}
+		if missing != 0 || found != len(b.txs) {
+			panic("harness: cached transaction reported missing")
+		}
+		return "ok"
+	})
+	res.Out = out
+	res.Tags = append(res.Tags, "kvalidate:"+out, "kvalidate-fin:"+f[8])
+	res.Nontrivial = true
+	after := c.raw()
+	if out == "ok" {
+		c.kvalid[b.snap.Hash] = true
+		for _, id := range b.txs {
+			if c.finalTx[id] {
+				continue
+			}
+			c.pending[id] = true
+			if !stored[id] {
+				res.Tags = append(res.Tags, "kvalidate-path:cached")
+				// accepted through Validate just now; the facts are those of the state it was validated on
+				// (approximated by the state before the call: earlier members only add locks and bodies)
+				c.recordValidationAt(id, before)
+			} else {
+				res.Tags = append(res.Tags, "kvalidate-path:persisted")
+			}
+		}
+	}
+	// a transaction displaced by a fork lock must be gone from the store (C17: the kernel trusts what it
+	// finds there)
+	for i, k := range before.keys {
+		if c15Family(k) != "UTXO" {
+			continue
+		}
+		ub, err1 := common.UnmarshalUTXO(before.vals[i])
+		v, ok := after.get(k)
+		if err1 != nil || !ok {
+			continue
+		}
+		ua, err2 := common.UnmarshalUTXO(v)
+		if err2 != nil || !ub.LockHash.HasValue() || ua.LockHash == ub.LockHash {
+			continue
+		}
+		if _, still := after.get(append([]byte("TRANSACTION"), ub.LockHash[:]...)); still {
+			res.PropKey = "C17:displaced-transaction-still-persisted"
+			res.PropDesc = fmt.Sprintf("input %s:%d was taken over from transaction %s by a fork lock, but that transaction is still in the TRANSACTION family",
+				c.txSym(ub.Hash), ub.Index, c.txSym(ub.LockHash))
+		}
+	}
+}
+
+func (c *c15LedgerCase) recordValidationAt(id int, db *c15RawDB) {
+	tx := c.txByID[id]
+	if tx.TransactionType() != common.TransactionTypeDeposit {
+		return
+	}
+	total := new(big.Int)
+	if v, ok := db.get(append([]byte("ASSETTOTAL"), tx.Asset[:]...)); ok {
+		total = integerToBig(common.NewIntegerFromString(string(v)))
+	}
+	_, seen := db.get(append([]byte("ASSETINFO"), tx.Asset[:]...))
+	c.valTotal[id], c.valSeen[id] = total, seen
+}
+
+// `csnap n <7 snapshot fields> x n`: n goroutines call WriteSnapshot while a writer holds the store mutex,
+// so all of them are queued when it is released. The order in which they committed is read from the
+// Badger versions of their topology keys; the model is given the snapshots in that order.
+func (c *c15LedgerCase) execConcurrent(f []string, prop string, res *Result) {
+	n := c15Atoi(f[1])
+	var snaps []*c15Snap
+	var fields [][]string
+	for i := 0; i < n; i++ {
+		g := append([]string{"snap"}, f[2+7*i:2+7*(i+1)]...)
+		snaps = append(snaps, c.buildSnap(g))
+		fields = append(fields, g[1:])
+	}
+	before := c.raw()
+	outs := make([]string, n)
+	var wg sync.WaitGroup
+	c.store.VerifC15WithMutex(func() {
+		for i := range snaps {
+			wg.Add(1)
+			go func(i int) {
+				defer wg.Done()
+				b := snaps[i]
+				outs[i], _, _ = Catch(func() string {
+					err := c.store.WriteSnapshot(&common.SnapshotWithTopologicalOrder{Snapshot: b.snap, TopologicalOrder: uint64(b.topo)}, b.signers)
+					if err != nil {
+						return "err"
+					}
+					return "ok"
+				})
+			}(i)
+			time.Sleep(3 * time.Millisecond) // queue them one after the other
+		}
+		time.Sleep(25 * time.Millisecond) // everybody is waiting (for the mutex, or with a transaction already open)
+	})
+	wg.Wait()
+	after := c.raw()
+	vers, err := c.store.VerifC15KeyVersions()
+	if err != nil {
+		panic(err)
+	}
+	// commit order
+	order := make([]int, n)
+	for i := range order {
+		order[i] = i
+	}
+	ver := func(i int) uint64 {
+		if outs[i] != "ok" {
+			return ^uint64(0)
+		}
+		return vers[string(append([]byte("SNAPTOPO"), snaps[i].snap.Hash[:]...))]
+	}
+	sort.SliceStable(order, func(a, b int) bool { return ver(order[a]) < ver(order[b]) })
+	lean := []string{"csnap", f[1]}
+	var results []string
+	for _, i := range order {
+		lean = append(lean, fields[i]...)
+		results = append(results, outs[i])
+	}
+	res.LeanIn = strings.Join(lean, " ")
+	res.Out = strings.Join(results, " ")
+	res.Tags = append(res.Tags, "csnap", fmt.Sprintf("csnap-n:%d", n))
+	res.Nontrivial = true
+
+	// bookkeeping and oracles, in commit order
+	firstBy := map[int]int{} // transaction -> index of the first committed snapshot that contains it
+	delta := map[int]*big.Int{}
+	for _, i := range order {
+		if outs[i] != "ok" {
+			continue
+		}
+		for _, id := range snaps[i].txs {
+			if _, ok := firstBy[id]; ok {
+				continue
+			}
+			firstBy[id] = i
+			if c.finalTx[id] {
+				continue
+			}
+			c.finalTx[id] = true
+			if !c.pending[id] {
+				c.tainted = true
+			}
+			tx := c.txByID[id]
+			a := c.assetID[tx.Asset]
+			if delta[a] == nil {
+				delta[a] = new(big.Int)
+			}
+			switch tx.TransactionType() {
+			case common.TransactionTypeDeposit:
+				delta[a].Add(delta[a], integerToBig(tx.Inputs[0].Deposit.Amount))
+			case common.TransactionTypeMint:
+				delta[a].Add(delta[a], integerToBig(tx.Inputs[0].Mint.Amount))
+			case common.TransactionTypeWithdrawalSubmit:
+				for _, o := range tx.Outputs {
+					if o.Type == common.OutputTypeWithdrawalSubmit {
+						delta[a].Sub(delta[a], integerToBig(o.Amount))
+					}
+				}
+			}
+		}
+	}
+	for a, d := range delta {
+		if c.expected[a] == nil {
+			c.expected[a] = new(big.Int)
+		}
+		c.expected[a].Add(c.expected[a], d)
+	}
+	if prop != "C15" {
+		return
+	}
+	for id, i := range firstBy {
+		h := c.hashOf(id)
+		fk := append([]byte("FINALIZATION"), h...)
+		want := snaps[i].snap.Hash
+		if old, was := before.get(fk); was {
+			want = c15Hash(old)
+		}
+		now, is := after.get(fk)
+		if !is || c15Hash(now) != want {
+			res.PropKey = "C15:finalization-overwritten"
+			res.PropDesc = fmt.Sprintf("queued snapshots sharing transaction %d: its finalization record is not the first snapshot that committed (%s)", id, c15SymOf(c.snapID, want))
+		}
+	}
+	read := func(db *c15RawDB, a int) *big.Int {
+		h := c.assetOf[a]
+		if v, ok := db.get(append([]byte("ASSETTOTAL"), h[:]...)); ok {
+			return integerToBig(common.NewIntegerFromString(string(v)))
+		}
+		return new(big.Int)
+	}
+	for a, d := range delta {
+		if got := new(big.Int).Sub(read(after, a), read(before, a)); got.Cmp(d) != 0 && res.PropKey == "" {
+			res.PropKey = "C15:effects-applied-twice"
+			res.PropDesc = fmt.Sprintf("queued snapshots: total of asset %d moved by %s, the distinct transactions they finalized account for %s", a, got, d)
+		}
+	}
 }
